@@ -143,7 +143,7 @@ async def soak(loop, acc, V, seed, rounds=12, rate=0.08, chunking="whole", windo
                 return [ST["ok"], 0]
             k = r["attempt"]
             r["attempt"] += 1
-            st = (r["enq"] + ["ok"] * 3)[k] if k < 3 else "ok"
+            st = (r["enq"] + ["ok"] * 16)[k] if k < 16 else "ok"
             r["tags"].append(p["tag"])
             r["replies"].append((seq, st))
             if st == "ok":
